@@ -156,7 +156,7 @@ Proof.
 Qed.
 
 (** ** the connections *)
-Definition shl (l : linkrec) : linkrec := mkLink (sh (la l)) (sh (lb l)) (ldir l) (lda l) (ldb l) (larea l).
+Definition shl (l : linkrec) : linkrec := mkLink (sh (la l)) (sh (lb l)) (ldir l) (lda l) (ldb l) (larea l) (ldcn l) (ldcr l).
 Lemma mk_conn_sh l : mk_conn nm (shl l) = mk_conn nms l.
 Proof. reflexivity. Qed.
 
@@ -170,7 +170,7 @@ Proof.
   - assert (C : (kt + S k =? 1)%nat = false) by (apply Nat.eqb_neq; lia). rewrite C. cbn [Nat.eqb orb]. rewrite top_trim.
     destruct (qle (gsurf g i j) (top g (kt + S k))) eqn:Q.
     + rewrite (zc_trim (S k) i j Hi Hj Hh). destruct (gatm g) as [|[|n]]; reflexivity.
-    + cbn [option_map shl la lb ldir lda ldb larea sh Nat.sub]. replace (kt + S k - 1)%nat with (kt + k)%nat by lia.
+    + cbn [option_map shl la lb ldir lda ldb larea ldcn ldcr sh Nat.sub]. replace (kt + S k - 1)%nat with (kt + k)%nat by lia.
       assert (Hh' : has g (kt + k) i j = true).
       { apply has_spec. unfold top in Q. replace (kt + S k - 1)%nat with (kt + k)%nat in Q by lia. qc_lra. }
       rewrite lcen_trim, (zc_trim k i j Hi Hj Hh'), bot_trim. reflexivity.
@@ -180,15 +180,19 @@ Lemma xlinks_trim k : map (mk_conn nm) (xlinks g (kt + k)) = map (mk_conn nms) (
 Proof.
   unfold xlinks. change (nx trim) with (nx g). change (ny trim) with (ny g). rewrite !map_flat_map. apply flat_map_ext_in.
   intros j Hj. apply in_seq in Hj. rewrite !map_flat_map. apply flat_map_ext_in. intros i Hi. apply in_seq in Hi.
-  rewrite !has_trim. destruct (has g (kt + k) i j && has g (kt + k) (S i) j); [|reflexivity]. cbn [map]. f_equal.
-  unfold mk_conn, xlink. cbn [la lb ldir lda ldb larea sh]. rewrite !height_trim by lia. reflexivity.
+  rewrite !has_trim. destruct (has g (kt + k) i j && has g (kt + k) (S i) j) eqn:E; [|reflexivity]. cbn [map]. f_equal.
+  apply andb_prop in E. destruct E as [E1 E2].
+  unfold mk_conn, xlink. cbn [la lb ldir lda ldb larea ldcn ldcr sh]. rewrite !height_trim by lia.
+  rewrite (zc_trim k i j ltac:(lia) ltac:(lia) E1), (zc_trim k (S i) j ltac:(lia) ltac:(lia) E2). reflexivity.
 Qed.
 Lemma ylinks_trim k : map (mk_conn nm) (ylinks g (kt + k)) = map (mk_conn nms) (ylinks trim (S k)).
 Proof.
   unfold ylinks. change (nx trim) with (nx g). change (ny trim) with (ny g). rewrite !map_flat_map. apply flat_map_ext_in.
   intros i Hi. apply in_seq in Hi. rewrite !map_flat_map. apply flat_map_ext_in. intros j Hj. apply in_seq in Hj.
-  rewrite !has_trim. destruct (has g (kt + k) i j && has g (kt + k) i (S j)); [|reflexivity]. cbn [map]. f_equal.
-  unfold mk_conn, ylink. cbn [la lb ldir lda ldb larea sh]. rewrite !height_trim by lia. reflexivity.
+  rewrite !has_trim. destruct (has g (kt + k) i j && has g (kt + k) i (S j)) eqn:E; [|reflexivity]. cbn [map]. f_equal.
+  apply andb_prop in E. destruct E as [E1 E2].
+  unfold mk_conn, ylink. cbn [la lb ldir lda ldb larea ldcn ldcr sh]. rewrite !height_trim by lia.
+  rewrite (zc_trim k i j ltac:(lia) ltac:(lia) E1), (zc_trim k i (S j) ltac:(lia) ltac:(lia) E2). reflexivity.
 Qed.
 Lemma layer_links_above k : (k < kt)%nat -> layer_links g k = [].
 Proof.
